@@ -112,6 +112,13 @@ def gen(cls, idx, rng, tier):
             ops.append(("free",))
         else:
             ops.append(("index", v, rng.randint(-3, 3)))
+    if n_views > 1 and rng.random() < .25:
+        # the application keeps only slices: its last reference to the view
+        # of the whole allocation goes away while slices are still in use
+        at = rng.randrange(len(ops) + 1)
+        of_root = [i for i, o in enumerate(ops)
+                   if o[0] == "slice" and o[1] == 0]
+        ops.insert(max(at, of_root[-1] + 1), ("forget_root",))
     if rng.random() < .35:
         # some transfers are attempted while the machine does not answer
         for i, o in enumerate(ops):
@@ -169,7 +176,20 @@ def run(case, ctx):
         return out
     mark = [0]
 
+    forgotten = False
     for op in case["ops"]:
+        if op[0] == "forget_root":
+            if not freed and len(views) > 1:
+                import gc
+                views[0].obj = None
+                root_obj = None
+                gc.collect()
+                forgotten = True
+                ctx.hit("root_view_forgotten")
+            continue
+        if forgotten and (op[0] == "free" or (len(op) > 1 and op[1] == 0) or
+                          (op[0] == "net_down" and op[2] == 0)):
+            continue        # nothing left to call these on
         net_down = op[0] == "net_down"
         if net_down:
             op = op[1:]
